@@ -279,10 +279,14 @@ class SetAlg:
                 return f_and(r, *ax) if ax else r
             if len(t[3]) >= 1 and not (isinstance(t[2], tuple) and t[2] and t[2][0] == "%payload"):
                 # {x for s in S for x in f(s)} = ⋃_{s in S} f(s): a comprehension with several generators is a big union
-                return self._member_part(e, ("bigunion", ("comp", "set", ("setlit", (t[2],)), tuple(t[3]))))
+                # (a conditional element splits it into one part per case)
+                return f_or(*[self._member_part(e, p_) for p_ in self._distribute(("setlit", (t[2],)), tuple(t[3]))])
         if h == "comp" and t[1] == "dict" and t[2][0] == "kv":
             # membership in a dict = membership among its keys
             return self.member(e, ("comp", "set", t[2][1], t[3]))
+        if h == "accum" and t[1] in ("union", "concat") and len(t) > 5 and t[5] == ("const", True):
+            # a loop that may stop early: which elements it reached is not a property of the collection alone
+            return ("atom", ("in", e, self.canon_opaque(t)))
         if h == "accum" and t[1] in ("union", "concat"):
             return f_or(*[self._member_part(e, p) for p in self.union_parts(t)])
         if h == "bigunion":
@@ -355,6 +359,20 @@ class SetAlg:
     def _distribute(self, payload: Term, gens: tuple) -> list[Term]:
         out = []
         payload = self.strip(payload)
+        for i, (gp, gi, gc) in enumerate(gens):
+            gi_s = self.strip(gi)
+            if gi_s[0] == "ite":
+                # for y in (A if c else B)  =  (for y in A, when c)  ∪  (for y in B, when not c)
+                yes = gens[:i] + ((gp, gi_s[2], tuple(gc) + (gi_s[1],)),) + gens[i + 1:]
+                no = gens[:i] + ((gp, gi_s[3], tuple(gc) + (("not", gi_s[1]),)),) + gens[i + 1:]
+                return self._distribute(payload, yes) + self._distribute(payload, no)
+            if gi_s[0] in ("listlit", "tuplelit", "setlit") and len(gi_s[1]) == 1 and gi_s[1][0][0] != "star" and gp[0] == "var" and i > 0:
+                # for y in (v,)  binds y to v
+                m = {gp: gi_s[1][0]}
+                prev = gens[i - 1]
+                new = gens[:i - 1] + ((prev[0], prev[1], tuple(prev[2]) + tuple(subst(c_, m) for c_ in gc)),) + tuple(
+                    (p_, subst(i_, m), tuple(subst(c_, m) for c_ in cs_)) for p_, i_, cs_ in gens[i + 1:])
+                return self._distribute(subst(payload, m), new)
         if payload[0] in ("setlit", "listlit", "tuplelit") and len(payload[1]) == 1 and gens:
             # {f(a if c else b) for x in S} = {f(a) for x in S if c} ∪ {f(b) for x in S if not c}
             from .symeval import _first_ite
@@ -422,8 +440,29 @@ class SetAlg:
                     return f_and(self.member(src_elem, gens[0][1]), *[self.cond(subst(c, mapping)) for c in gens[0][2]])
             if mapping is not None:
                 return f_and(self.member(e, gens[0][1]), *[self.cond(subst(c, mapping)) for c in gens[0][2]])
+        gens = self._hoist_conds(gens)
+        if q[0] in ("listlit", "tuplelit") and len(q[1]) == 1 and q[1][0][0] != "star":
+            q = ("setlit", q[1])  # a part {x} of a union, however the singleton was spelt
         cg = tuple((pat, self.canon(("setof", it)), tuple(self._canon_cond(c) for c in conds)) for pat, it, conds in gens)
         return ("atom", ("in", e, ("bigunion", ("comp", "set", self.canon(("setof", q)) if self.is_setexpr(q) else self.canon(q), cg))))
+
+    def _hoist_conds(self, gens: tuple) -> tuple:
+        """Every filter is attached to the first generator after which all of its variables are bound (filters do not care where they stand)."""
+        pats = []
+        for pat, _it, _c in gens:
+            pats.append({v for v in subterms(pat) if v[0] == "var"})
+        new = [[pat, it, []] for pat, it, _ in gens]
+        for i, (_pat, _it, conds) in enumerate(gens):
+            for c in conds:
+                parts = list(c[1:]) if c[0] == "and" else [c]
+                for part in parts:
+                    used = {v for v in subterms(part) if v[0] == "var"}
+                    k = 0
+                    for j in range(i + 1):
+                        if used & pats[j]:
+                            k = j
+                    new[k][2].append(part)
+        return tuple((p_, i_, tuple(sorted(cs_, key=repr))) for p_, i_, cs_ in new)
 
     def _comp_member(self, e: Term, elt: Term, gens: tuple) -> Formula | None:
         """member(e, {elt for pat in it if conds}) when elt is the bound pattern itself (a filter)."""
@@ -716,6 +755,17 @@ class SetAlg:
         """Canonical form of a term whose head is not decomposed as a set expression."""
         t = self.rewrite(t)
         h = t[0]
+        if h in ("listlit", "tuplelit") and t[1] and all(x[0] == "star" for x in t[1]):
+            # [*a, *b] = a followed by b
+            out = t[1][0][1]
+            for x in t[1][1:]:
+                out = ("concat", out, x[1])
+            return self.canon(out)
+        if h == "call" and isinstance(t[1], str) and t[1].split(".")[-1] == "chain" and len(t[2]) >= 1 and not t[3] and not t[1].endswith("from_iterable"):
+            out = t[2][0]
+            for x in t[2][1:]:
+                out = ("concat", out, x)
+            return self.canon(out)
         if h == "meth" and t[2] == "keys" and not t[3] and not t[4]:
             return self.canon(t[1])  # d.keys(), as a collection, is d
         if h == "accum":
@@ -725,6 +775,8 @@ class SetAlg:
             t2 = _discard_form(t)
             if t2 != t:
                 return self.canon_opaque(t2)
+        if h == "accum" and len(t) > 5 and t[5] == ("const", True):
+            return (h,) + tuple(self.canon(x) for x in t[1:])  # may stop early: kept as the loop it is
         if (h == "accum" and t[1] in ("union", "concat")) or h == "bigunion":
             return self.canon_set(t)
         if h == "call" and isinstance(t[1], str) and (t[1] in CHAIN_NAMES or t[1].endswith("chain.from_iterable")) and len(t[2]) == 1:
